@@ -21,6 +21,18 @@ def _run_B(seed, verbose=0):
         except Exception as ex:
             o = "EXC %s" % type(ex).__name__
         if l.startswith("dump."): outs.append(o)
+    # which solver a model that names none is handed to (and what it returns) must not depend on earlier models either
+    try:
+        from PEPit import PEP
+        from PEPit.functions import SmoothStronglyConvexFunction
+        pep = PEP(); f = pep.declare_function(SmoothStronglyConvexFunction, mu=.1, L=1.)
+        xs = f.stationary_point(); x0 = pep.set_initial_point(); pep.set_initial_condition((x0 - xs) ** 2 <= 1)
+        pep.set_performance_metric((x0 - f.gradient(x0) - xs) ** 2)
+        with contextlib.redirect_stdout(io.StringIO()):
+            v = pep.solve(verbose=0)
+        outs.append("default-solver=%s value=%r" % (getattr(pep.wrapper, "solver_name", None), v))
+    except Exception as ex:
+        outs.append("default-solver solve raises %s" % type(ex).__name__)
     return outs
 
 
@@ -292,8 +304,13 @@ def c17_tables(n, seed, procs):
         if missing:
             fails.append(dict(what="%d class constraint(s) of %s appear in no table (e.g. %s)" % (len(missing), cls, missing[0].get_name()), oracle="c17_tables", input=desc, tags=tags + ["c17-no-table:" + cls]))
         names = [c.get_name() for c in f.list_of_class_constraints]
-        pnames = [t[0].get_name() for t in f.list_of_points]
-        if len(set(n_ for n_ in pnames if n_)) == len([n_ for n_ in pnames if n_]):
+        # labels are the user's names or the default ids `Point_<index in the list>`: names identify constraints only when the
+        # labels of the samples (of the function and, for a linear operator, of its adjoint) are distinct — a label given twice,
+        # a point sampled twice, or a user label equal to a default id legitimately give two constraints one name
+        def _labels(lst): return [(t[0].get_name() or "Point_%d" % i_) for i_, t in enumerate(lst)]
+        pnames = _labels(f.list_of_points)
+        tnames = _labels(f.T.list_of_points) if getattr(f, "T", None) is not None and hasattr(f.T, "list_of_points") else []
+        if len(set(pnames)) == len(pnames) and len(set(tnames)) == len(tnames):
             if None in names or len(set(names)) != len(names):
                 dup = next((n_ for n_ in names if n_ is None or names.count(n_) > 1), None)
                 fails.append(dict(what="class constraint names of %s do not identify the constraint (%r occurs %d times)" % (cls, dup, names.count(dup)), oracle="c17_tables", input=desc, tags=tags + ["c17-names:" + cls]))
